@@ -19,6 +19,7 @@ pub const FAULTS: &[&str] = &[
     "none", "dangling_neighbor", "one_way_neighbor", "wrong_mirror_slot", "duplicate_cell", "missing_cell",
     "repeated_vertex", "swap_vertex_order", "invert_cell", "flat_cell", "nonfinite_coord", "stale_incident",
     "wrong_incident", "isolated_vertex", "clear_neighbors", "extra_cell_pinch", "disconnect", "swap_neighbors",
+    "remove_cell_clean",
 ];
 
 /// legal variations of a valid complex
@@ -77,6 +78,13 @@ pub fn inject<const D: usize>(t: &mut T<D>, fault: &str, rng: &mut Rng) -> bool 
         "missing_cell" => {
             if cks.len() < 2 { return false; }
             t.verif_remove_cell_raw(ck);
+            true
+        }
+        "remove_cell_clean" => {
+            // removal through the PUBLIC api (neighbours and incident cells are repaired): Levels 1-2
+            // stay valid, what breaks - if anything - is Level 3 (a hole, a pinched vertex link, Euler)
+            if cks.len() < 2 { return false; }
+            let _ = t.remove_cells_by_keys(&[ck]);
             true
         }
         "repeated_vertex" => {
@@ -227,6 +235,23 @@ fn run_d<const D: usize>(cfg: &Cfg, rng: &mut Rng, out: &mut Out) {
             n += 1;
             emit::<D>(&format!("b{D}_{bi}_{b}"), base, *g, &[b], rng, out, fam);
         }
+        // every single cell removed cleanly (public api) from small instances: which Level-3 clause
+        // owns the damage depends on where the cell sits (hull cell, interior cell, pinching cell)
+        if base.number_of_cells() <= 40 {
+            let keys = cell_keys(base);
+            for (ci, ck) in keys.iter().enumerate() {
+                let mut t = base.clone();
+                let _ = t.remove_cells_by_keys(&[*ck]);
+                if t.number_of_cells() == 0 { continue; }
+                n += 1;
+                let dt = DelaunayTriangulation::<FastKernel<f64>, tri::VData, tri::CData, D>::from_tds_with_topology_guarantee(t, FastKernel::new(), tri::guarantee(*g));
+                let mut ids = Ids::default();
+                out.case(&format!("r{D}_{bi}_{ci}"), "cx", &format!("D={D} fam={fam} g={g} expect=none faults=remove_cell_clean"));
+                tri::export(&dt, &mut ids, out);
+                tri::observe_validators(&dt, out, false);
+                out.end();
+            }
+        }
         // pairs of faults on small instances
         if base.number_of_cells() <= 6 || thorough {
             let np = if thorough { 40 } else { 10 };
@@ -236,6 +261,42 @@ fn run_d<const D: usize>(cfg: &Cfg, rng: &mut Rng, out: &mut Out) {
                 n += 1;
                 emit::<D>(&format!("p{D}_{bi}_{r}"), base, *g, &[a, b], rng, out, fam);
             }
+        }
+    }
+    // more instances for the clean-removal sweep only (general position, 7-10 points, PL guarantees):
+    // the position of the removed cell decides which Level-3 clause must notice
+    let extra = if thorough { 60 } else { 16 };
+    // corpus: 3-D point sets in which one hull cell, removed cleanly, pinches the boundary at its
+    // apex (annulus vertex link) while every other Level-3 clause stays satisfied
+    let corpus3: [&[[i64; 3]]; 3] = [
+        &[[1, 3, 0], [1, 6, 1], [3, 2, 3], [3, 5, 2], [3, 6, 0], [4, 1, 1], [4, 2, 4]],
+        &[[0, 0, 1], [0, 6, 4], [1, 2, 1], [3, 2, 4], [4, 7, 2], [5, 3, 0], [5, 4, 2], [7, 8, 2]],
+        &[[0, 3, 2], [0, 7, 0], [1, 4, 0], [2, 5, 0], [3, 8, 4], [4, 2, 3], [5, 1, 1], [6, 4, 3], [6, 8, 2], [7, 7, 2]],
+    ];
+    let ncorpus = if D == 3 { 6 } else { 0 };
+    for xi in 0..(extra + ncorpus) {
+        let np = (D + 4 + rng.below(4) as usize).min(if D >= 4 { D + 4 } else { 10 });
+        let pts = if xi >= extra {
+            corpus3[(xi - extra) % 3].iter().map(|p| p.iter().map(|x| *x as f64).collect::<Vec<f64>>()).collect()
+        } else {
+            gens::to_f(&gens::general_position(rng, D, np, 8), 1.0, 0.0)
+        };
+        let g = if xi >= extra { 1 + (xi - extra) / 3 } else { 1 + (xi % 2) };
+        let vs = tri::make_vertices::<D>(&pts, rng);
+        let Ok(Ok(dt0)) = tri::build_fast::<D>(&vs, g, &tri::Opts { order: 3, dedup: 0, simplex: 0, retry: 0 }) else { continue };
+        let base = dt0.tds().clone();
+        if base.number_of_cells() > 40 { continue; }
+        for (ci, ck) in cell_keys(&base).iter().enumerate() {
+            let mut t = base.clone();
+            let _ = t.remove_cells_by_keys(&[*ck]);
+            if t.number_of_cells() == 0 { continue; }
+            n += 1;
+            let dt = DelaunayTriangulation::<FastKernel<f64>, tri::VData, tri::CData, D>::from_tds_with_topology_guarantee(t, FastKernel::new(), tri::guarantee(g));
+            let mut ids = Ids::default();
+            out.case(&format!("rx{D}_{xi}_{ci}"), "cx", &format!("D={D} fam=general g={g} expect=none faults=remove_cell_clean"));
+            tri::export(&dt, &mut ids, out);
+            tri::observe_validators(&dt, out, false);
+            out.end();
         }
     }
     let _ = n;
